@@ -23,7 +23,6 @@ import (
 
 	"verif/internal/vf"
 	"verif/internal/yrun"
-
 )
 
 func Main() {
@@ -352,20 +351,20 @@ func run(id, tier string) int {
 	}
 	sort.Strings(notes)
 	ev.Coverage = map[string]any{
-		"evaluations":              evals,
-		"distinct_nontrivial":      len(nt),
-		"rule":                     c.Rule,
-		"samples":                  samples,
-		"classes":                  classes,
-		"excluded_by_construction": excluded,
-		"known_findings_seen":      orEmpty(knownSeen),
+		"evaluations":                   evals,
+		"distinct_nontrivial":           len(nt),
+		"rule":                          c.Rule,
+		"samples":                       samples,
+		"classes":                       classes,
+		"excluded_by_construction":      excluded,
+		"known_findings_seen":           orEmpty(knownSeen),
 		"known_findings_not_reproduced": orEmpty(knownGone),
-		"shards":                   nshards,
-		"requested_cases":          requested,
-		"completed_cases":          completed,
-		"inconclusive":             orEmpty(inconclusive),
-		"notes":                    orEmpty(uniq(notes)),
-		"exhaustive":               c.Exhaustive,
+		"shards":                        nshards,
+		"requested_cases":               requested,
+		"completed_cases":               completed,
+		"inconclusive":                  orEmpty(inconclusive),
+		"notes":                         orEmpty(uniq(notes)),
+		"exhaustive":                    c.Exhaustive,
 	}
 	for k, v := range extra {
 		ev.Coverage[k] = v
